@@ -354,24 +354,36 @@ func PureBackoffCheck(seed uint64, n int) (checked int, bad []string) {
 	}
 	for i := 0; i < n; i++ {
 		cfg := leader.BackoffConfig{
-			InitialBackoff:    Pick(r, []time.Duration{0, 1, 1 * ms, 50 * ms, 1 * sec, time.Hour}),
-			MaxBackoff:        Pick(r, []time.Duration{0, 1 * ms, 5 * sec, time.Hour, 1<<62 - 1}),
-			BackoffMultiplier: Pick(r, []float64{0, 0.5, 1, 1.01, 1.05, 1.2, 1.5, 2, 10, 1e9}),
+			InitialBackoff:    Pick(r, []time.Duration{0, 1, 1 * ms, 50 * ms, 1 * sec, time.Hour, 1<<62 - 1}),
+			MaxBackoff:        Pick(r, []time.Duration{0, 1 * ms, 5 * sec, time.Hour, 1<<62 - 1, math.MaxInt64}),
+			BackoffMultiplier: Pick(r, []float64{0, 0.5, 1, 1.01, 1.05, 1.2, 1.5, 2, 10, 1e9, -2}),
 			Jitter:            Pick(r, []float64{0, 0.1, 0.5, 1}),
 		}
-		att := Pick(r, []int{0, 1, 2, 3, 10, 20, 31, 32, 33, 40, 62, 63, 64, 100, 200, 1000, 1 << 30})
+		att := Pick(r, []int{0, 1, 2, 3, 10, 20, 31, 32, 33, 40, 62, 63, 64, 100, 200, 1000, 2000, 1 << 30})
 		got := leader.CalculateBackoff(cfg, att)
-		base := float64(cfg.InitialBackoff) * math.Pow(cfg.BackoffMultiplier, float64(att))
-		if base > float64(cfg.MaxBackoff) || math.IsInf(base, 1) {
-			base = float64(cfg.MaxBackoff)
-		}
 		checked++
-		if math.IsNaN(base) {
+		if got < 0 {
+			// "never negative" holds for every configuration and attempt number
+			if len(bad) < 5 {
+				bad = append(bad, fmt.Sprintf("CalculateBackoff(%+v, %d) with draw %.6f = %v: negative", cfg, att, f, got))
+			}
 			continue
+		}
+		if cfg.BackoffMultiplier < 0 {
+			continue // the formula's value alternates in sign: only "never negative" is meaningful
+		}
+		// min(Max, Init x Mult^n) over the reals: a zero initial backoff gives zero whatever the power
+		base := 0.0
+		if cfg.InitialBackoff != 0 {
+			base = float64(cfg.InitialBackoff) * math.Pow(cfg.BackoffMultiplier, float64(att))
+			if base > float64(cfg.MaxBackoff) || math.IsInf(base, 1) {
+				base = float64(cfg.MaxBackoff)
+			}
 		}
 		lo, hi := base*(1-cfg.Jitter), base*(1+cfg.Jitter)
 		tol := math.Max(2, math.Abs(base)*1e-9)
-		if got < 0 || float64(got) < lo-tol || (float64(got) > hi+tol && hi < 9e18) {
+		// (a value beyond the largest Duration cannot be returned: the largest Duration is then within the band)
+		if float64(got) < math.Min(lo, float64(math.MaxInt64))-tol || float64(got) > hi+tol {
 			if len(bad) < 5 {
 				bad = append(bad, fmt.Sprintf("CalculateBackoff(%+v, %d) with draw %.6f = %v, outside [%v, %v]", cfg, att, f, got, time.Duration(lo), time.Duration(hi)))
 			}
